@@ -8,6 +8,8 @@ Structural clauses:
  O4 every WriteWrapper construction is paired with `take_err` on the Err path of the evaluation that used it, and
     take_err builds ErrorKind::WriteFailure with the stored io::Error as source.
  O5 macro evaluation renders into its own String-backed Output, never into the caller's sink.
+ O6 no write is attempted after a failed one in the escaping / output code.
+ O7 the WriteWrapper is built around the caller's writer itself, not around a buffering adapter that writes later.
 """
 from .. import cfg, flow, errflow, query
 from ..facts import op_place
@@ -208,6 +210,25 @@ def run(ctx):
             else:
                 ok = True
         ctx.ob("C19.O4.wrapper-paired-with-take_err", root, ok, detail, f.where(bb))
+    # O7: the wrapper is built around the caller's writer itself.  An adapter in between (io::BufWriter, LineWriter, a
+    # buffer struct of the crate) holds output back and writes it when it is dropped or flushed - i.e. *after* the
+    # sink reported a failure and while the error is already being returned, with the result of that late write
+    # ignored (BufWriter's Drop).  The sink operand of every WriteWrapper construction must therefore be the
+    # function's own writer parameter (moved or reborrowed), not the result of a call.
+    for f, bb, i, rv in aggs:
+        if "w" not in rv.get("fields", []):
+            ctx.need(False, "C19.O7: WriteWrapper has no field `w`")
+        op = rv["ops"][rv["fields"].index("w")]
+        os_ = flow.origins(f, op) if "c" not in op else []
+        direct = bool(os_) and all(o.kind == "arg" and not o.proj for o in os_)
+        via = sorted({o.call.name for o in os_ if o.kind == "call"})
+        ty = f.local_ty(op_place(op)["l"]) if "c" not in op else None
+        ctx.ob("C19.O7.engine-writes-to-the-callers-writer-itself", f.root or f.path, direct,
+               "the sink handed to WriteWrapper is %s (type %s), not the caller's writer: output is held back by the "
+               "adapter and written when it is flushed or dropped - also after a write failure was reported and while the "
+               "WriteFailure error is being returned, the result of that late write being ignored"
+               % (("the result of " + ", ".join(via)) if via else "not a parameter", (ty or {}).get("s") if isinstance(ty, dict) else ty),
+               f.where(bb))
     te = prog.fn(TAKE_ERR)
     took = any(c.name == "core::option::Option::take" and any("err" in o.proj for o in flow.origins(te, c.args[0]))
                for c in te.calls())
